@@ -188,6 +188,34 @@ func checkRollbackSelection(p *Prog, r *Result) {
 					}
 				}
 			}
+			// equivalent loop form: for _, idx := range failedIndices { list = append(list, resources[node][idx]) }
+			if why != "" {
+				if lid, ok := unparen(c.Args[2]).(*ast.Ident); ok {
+					lo := fn.objOf(lid)
+					for f := fn; f != nil && why != ""; f = f.Parent {
+						ast.Inspect(f.Body, func(y ast.Node) bool {
+							rs, ok := y.(*ast.RangeStmt)
+							if !ok || f.objOf(rs.X) != idxList || rs.Value == nil {
+								return true
+							}
+							vo := f.objOf(rs.Value)
+							ast.Inspect(rs.Body, func(z ast.Node) bool {
+								as, ok := z.(*ast.AssignStmt)
+								if !ok || len(as.Lhs) != 1 || len(as.Rhs) != 1 || f.objOf(as.Lhs[0]) != lo {
+									return true
+								}
+								if ac, ok := unparen(as.Rhs[0]).(*ast.CallExpr); ok && isBuiltinCall(f, ac, "append") && len(ac.Args) == 2 {
+									if ix, ok := unparen(ac.Args[1]).(*ast.IndexExpr); ok && f.objOf(ix.Index) == vo {
+										why = ""
+									}
+								}
+								return true
+							})
+							return true
+						})
+					}
+				}
+			}
 			r.check2(why, "RBSEL", key, p.pos(c), "utils.Map(failedIndices, func(idx) { return resources[node][idx] })")
 			return true
 		})
